@@ -75,22 +75,31 @@ def harness_inputs(trace, names):
     return vals
 
 
-def build_and_run(template, defines, repo, workdir, sources=None, timeout=300):
+_build_lock = __import__('threading').Lock()
+
+
+def build_and_run(template, defines, repo, workdir, sources=None, timeout=300, libdir=None):
+    """the sanitizer objects of the working tree are built once per check run (libdir) and reused"""
     os.makedirs(workdir, exist_ok=True)
+    libdir = libdir or workdir
+    os.makedirs(libdir, exist_ok=True)
     inc = include_flags(repo)
     srcs = sources if sources else SRC_FILES
     objs = []
 
     def cc(f):
-        o = os.path.join(workdir, f.replace('/', '_') + '.o')
+        o = os.path.join(libdir, f.replace('/', '_') + '.o')
+        if os.path.exists(o):
+            return o, None
         r = subprocess.run(CXX + inc + ['-c', os.path.join(repo, 'src', f), '-o', o], capture_output=True, text=True)
         return o, r
 
-    with cf.ThreadPoolExecutor(max_workers=16) as ex:
-        for o, r in ex.map(cc, srcs):
-            if r.returncode != 0:
-                return None, 'build of working tree failed:\n' + r.stderr[-2000:]
-            objs.append(o)
+    with _build_lock:
+        with cf.ThreadPoolExecutor(max_workers=16) as ex:
+            for o, r in ex.map(cc, srcs):
+                if r is not None and r.returncode != 0:
+                    return None, 'build of working tree failed:\n' + r.stderr[-2000:]
+                objs.append(o)
     exe = os.path.join(workdir, 'replay.exe')
     cmd = CXX + inc + ['-I' + os.path.dirname(template)] + ['-D%s=%s' % kv for kv in defines.items()] + [template] + objs + ['-o', exe]
     r = subprocess.run(cmd, capture_output=True, text=True)
@@ -101,11 +110,10 @@ def build_and_run(template, defines, repo, workdir, sources=None, timeout=300):
                            env=dict(os.environ, ASAN_OPTIONS='detect_leaks=0', UBSAN_OPTIONS='print_stacktrace=1'))
     except subprocess.TimeoutExpired:
         return 124, 'native replay timed out (non-termination is a violation of C07 only)'
-    for f in objs + [exe]:
-        try:
-            os.remove(f)
-        except OSError:
-            pass
+    try:
+        os.remove(exe)
+    except OSError:
+        pass
     return r.returncode, (r.stdout + r.stderr)[-4000:]
 
 
@@ -142,7 +150,8 @@ def make_replay(prop, rec, o, outdir, verif, repo, scratch):
             native = 'trace does not assign harness inputs %s: no-failing-input-found' % missing
         else:
             rc, out = build_and_run(os.path.join(verif, spec['template']), defines, repo,
-                                    os.path.join(scratch, 'replay-' + rec['unit']), spec.get('sources'))
+                                    os.path.join(scratch, 'replay-' + rec['unit']), spec.get('sources'),
+                                    libdir=os.path.join(scratch, 'sanlib'))
             if rc is None:
                 native = 'native replay could not be built: ' + out
             elif rc != 0:
